@@ -2,6 +2,8 @@
 //! Every harness is a `#[kani::proof]` under Kani and an ordinary `#[test]` natively
 //! (driven by `$ZV_REPLAY`), declared through `zv_harness!`.
 #![allow(unused_imports, dead_code, clippy::all)]
+// the allocator-model stub of C08 names `std::alloc::Global` (Kani toolchain is a nightly)
+#![cfg_attr(kani, feature(allocator_api))]
 
 #[macro_export]
 macro_rules! zcover {
@@ -22,7 +24,7 @@ macro_rules! zv_harness {
         prop: $prop:literal,
         tier: $tier:ident,
         unwind: $unwind:literal,
-        stubs: [ $( $from:path => $to:path ),* $(,)? ],
+        stubs: [ $( $from:ty => $to:path ),* $(,)? ],
         targets: $targets:literal,
         bounds: $bounds:literal,
         oracle: $oracle:literal,
@@ -79,3 +81,7 @@ pub mod c10_vecs;
 pub mod c11_sorts;
 #[cfg(feature = "p_c12")]
 pub mod c12_suffix;
+#[cfg(feature = "p_c04")]
+pub mod c04_rankselect;
+#[cfg(feature = "p_c14")]
+pub mod c14_accel;
